@@ -64,7 +64,7 @@ class Lin:
                 const += c
             else:
                 terms.append(z3.Q(c.numerator, c.denominator) * self.mvar(m))
-        e = z3.Sum(terms) if terms else z3.RealVal(0)
+        e = (terms[0] if len(terms) == 1 else z3.Sum(terms)) if terms else z3.RealVal(0)  # no unary (+ t): cvc5 rejects it
         if const:
             e = e + z3.Q(const.numerator, const.denominator)
         return e
@@ -292,6 +292,12 @@ def prove(ctx: Ctx, goals, rounds=2, maxdeg=6, timeout_ms=20000, extra=(), produ
         lemmas += saturate(eqs, t2 - targets, rounds=1, maxdeg=maxdeg)
     STATS["lemmas"] += len(lemmas)
 
+    size = sum(len(l.t) for l in lemmas)
+    if size > ctx.options.get("max_lemma_terms", 30000):
+        for g in todo:
+            g.status = "open"
+            g.detail = g.detail or f"saturation produced {len(lemmas)} lemmas with {size} monomial occurrences - beyond what is handed to the solver"
+        return glist
     L = Lin(ctx, timeout_ms=timeout_ms)
     for a in list(ctx.assumptions) + pa + list(extra):
         L.note_var_facts(a)
@@ -306,28 +312,81 @@ def prove(ctx: Ctx, goals, rounds=2, maxdeg=6, timeout_ms=20000, extra=(), produ
     for pr in prod_lemmas:
         L.s.add(L.atom("ge", pr))
     neg = {"eq": "ne", "ge": "lt", "gt": "le", "le": "gt", "lt": "ge", "ne": "eq"}
-    for g in todo:
+    for gi, g in enumerate(todo):
         if ctx.options.get("deadline") and time.time() > ctx.options["deadline"]:
             g.status = "open"
             g.detail = g.detail or "time budget of the configuration exhausted"
             continue
-        L.s.push()
-        L.s.add(L.atom(neg[g.kind], g.p))
+        # negated goal under an assumption literal (no push/pop: z3's push internalises every assertion outside the
+        # reach of its own timeout, which once blocked a worker for 25 minutes)
+        lit = z3.Bool("goal%d" % gi)
+        L.s.add(z3.Implies(lit, L.atom(neg[g.kind], g.p)))
         t1 = time.time()
-        r = str(L.s.check())
+        r = str(L.s.check(lit))
         dt = time.time() - t1
         STATS["queries"] += 1
         STATS["solver_time"] += dt
-        L.s.pop()
+        xc = "skipped"
+        if r == "unsat":
+            L.s.push()
+            L.s.add(lit)
+            xc = cross_check(ctx, L.s)
+            L.s.pop()
         if r == "unsat":
             g.status = "proved"
-            g.detail = f"LIN unsat ({len(lemmas)} lemmas, {len(L.mv)} atoms, {dt:.2f}s)"
+            g.detail = f"LIN unsat ({len(lemmas)} lemmas, {len(L.mv)} atoms, {dt:.2f}s)" + (f"; cvc5: {xc}" if xc != "skipped" else "")
         else:
             if r == "unknown":
                 STATS["unknown"] += 1
             g.status = "open"
             g.detail = f"LIN {r} ({len(lemmas)} lemmas, {len(L.mv)} atoms)"
     return glist
+
+
+def cross_check(ctx: Ctx, solver) -> str:
+    """second opinion on an `unsat` verdict: the very query z3 answered (exported as SMT-LIB2) is handed to cvc5.
+    Returns 'unsat' (agrees), 'skipped' (quota used up / cvc5 unavailable), 'unknown' (cvc5 gave up within its limit).
+    A `sat` answer is an engine error: the two solvers disagree on a QF_LRA query."""
+    quota = ctx.options.get("cross_check", 0)
+    used = ctx.caches.get("cross_checked", 0)
+    if used >= quota:
+        return "skipped"
+    try:
+        import cvc5
+    except Exception:  # noqa
+        return "skipped"
+    ctx.caches["cross_checked"] = used + 1
+    txt = solver.to_smt2()
+    t1 = time.time()
+    slv = cvc5.Solver()
+    slv.setOption("tlimit-per", str(int(ctx.options.get("cross_check_ms", 15000))))
+    slv.setLogic("QF_LRA")
+    par = cvc5.InputParser(slv)
+    par.setStringInput(cvc5.InputLanguage.SMT_LIB_2_6, txt, "lin")
+    sm = par.getSymbolManager()
+    res = "unknown"
+    try:
+        while True:
+            cmd = par.nextCommand()
+            if cmd.isNull():
+                break
+            out = cmd.invoke(slv, sm).strip()
+            if out in ("sat", "unsat", "unknown"):
+                res = out
+            elif out.startswith("(error"):
+                res = "unknown"
+    except Exception as e:  # noqa - a query cvc5 cannot read is 'not cross-checked', never a verdict
+        res = "unknown"
+        ctx.notes.append(f"cvc5 could not read an exported query: {str(e)[:80]}") if hasattr(ctx, "notes") else None
+    STATS["cvc5_queries"] = STATS.get("cvc5_queries", 0) + 1
+    STATS["cvc5_time"] = STATS.get("cvc5_time", 0.0) + time.time() - t1
+    if res == "unsat":
+        STATS["cvc5_agree"] = STATS.get("cvc5_agree", 0) + 1
+    elif res == "sat":
+        raise EngineError("solver disagreement: z3 answered unsat, cvc5 answered sat on the same QF_LRA query")
+    else:
+        STATS["cvc5_unknown"] = STATS.get("cvc5_unknown", 0) + 1
+    return res
 
 
 def smt2_sample(ctx: Ctx, g: Goal, max_assumptions=6) -> str:
@@ -647,8 +706,9 @@ def prove_eq_by_reduction(ctx: Ctx, goals, timeout_ms=20000, extra=(), rounds=2,
         STATS["solver_time"] += dt
         STATS["lemmas"] += len(used) + len(extra_lemmas)
         if r == "unsat":
+            xc = cross_check(ctx, L.s)
             g.status = "proved"
-            g.detail = f"LIN unsat ({len(used)} reduction-selected + {len(extra_lemmas)} saturation lemmas, {len(L.mv)} atoms, {dt:.2f}s)"
+            g.detail = f"LIN unsat ({len(used)} reduction-selected + {len(extra_lemmas)} saturation lemmas, {len(L.mv)} atoms, {dt:.2f}s)" + (f"; cvc5: {xc}" if xc != "skipped" else "")
         else:
             if r == "unknown":
                 STATS["unknown"] += 1
